@@ -56,9 +56,10 @@ structure SpecState (Val Op : Type) where
   inputs : List PId
   exprs : List (Expr Val Op)      -- node id ↦ expression (internal copies stand for the same expression)
   watches : List (Expr Val Op)    -- watch number ↦ watched expression
+  refs : List (Expr Val Op) := [] -- holder number ↦ expression held as a reference
 
 def SpecState.empty (S : Sem Val Err Op) : SpecState Val Op :=
-  { env := fun _ => S.none, nparams := 0, inputs := [], exprs := [], watches := [] }
+  { env := fun _ => S.none, nparams := 0, inputs := [], exprs := [], watches := [], refs := [] }
 
 def SpecState.alloc (s : SpecState Val Op) (v : Val) (input : Bool) : SpecState Val Op :=
   { s with env := fun q => if q = s.nparams then v else s.env q, nparams := s.nparams + 1,
@@ -82,7 +83,9 @@ inductive Expect (Val Err Op : Type) where
   | createOrErr (r : Except Err Val) (attr : Option Op)   -- creation may read the node: it may fail only as that read fails (or the attribute is missing)
   | watching
   | read (r : Except Err Val)
-  | set (before after : List (Except Err Val))            -- per watch: value before / after the update
+  | set (before after : List (Except Err Val)) (refsAfter : List (Except Err Val))
+                                                          -- per watch: value before / after the update; per holder: after
+  | readRef (r : Except Err Val)                          -- a Parameter holding the expression mirrors its value
   | invalid                                               -- dangling reference: not a program
 
 /-- one statement on the specification state: expectation and next state; `none` = no next state (invalid) -/
@@ -119,10 +122,18 @@ def specStep (S : Sem Val Err Op) (s : SpecState Val Op) : Stmt Val Op → Expec
   | .set p v =>
     if !s.inputs.contains p then (.invalid, s) else
     let s1 := { s with env := fun q => if q = p then v else s.env q }
-    (.set (s.watches.map (eval S s.env)) (s.watches.map (eval S s1.env)), s1)
+    (.set (s.watches.map (eval S s.env)) (s.watches.map (eval S s1.env)) (s.refs.map (eval S s1.env)), s1)
   | .read n =>
     match s.exprs[n]? with
     | some e => (.read (eval S s.env e), s)
+    | none => (.invalid, s)
+  | .ref n =>
+    match s.exprs[n]? with
+    | some e => (.createOrErr (eval S s.env e) none, { s with refs := s.refs ++ [e] })
+    | none => (.invalid, s)
+  | .readref h =>
+    match s.refs[h]? with
+    | some e => (.readRef (eval S s.env e), s)
     | none => (.invalid, s)
 
 variable [BEq Val] [BEq Err] [BEq Op]
@@ -160,7 +171,11 @@ def meets (S : Sem Val Err Op) : Expect Val Err Op → Outcome Val Err → Optio
   | .read (.error e), .readErr e' => if e == e' then none else some "read raised another exception class than the direct evaluation"
   | .read (.error _), .read _ => some "read returned a value although the direct evaluation raises"
   | .read _, _ => some "unexpected outcome of a read"
-  | .set before after, .set calls err =>
+  | .readRef (.ok v), .read v' =>
+    if v == v' then none else some "a Parameter holding the expression as a reference does not mirror its value"
+  | .readRef (.error _), .read _ => none     -- the expression fails now: the holder keeps its last value
+  | .readRef _, _ => some "unexpected outcome of reading a reference holder"
+  | .set before after refsAfter, .set calls err =>
     -- (1) every callback got the fresh value of its expression
     match calls.find? (fun (k, v) => !isOkVal after[k]? v) with
     | some (k, _) => some s!"watch callback {k} was called with a value that is not the fresh value"
@@ -168,8 +183,8 @@ def meets (S : Sem Val Err Op) : Expect Val Err Op → Outcome Val Err → Optio
       -- (2) an exception may escape the assignment only if it is the failure of a watched expression
       let errOk := match err with
         | none => true
-        | some e => after.any (exEq (.error e))
-      if !errOk then some "the input update raised although no watched expression fails" else
+        | some e => after.any (exEq (.error e)) || refsAfter.any (exEq (.error e))
+      if !errOk then some "the input update raised although no watched or referenced expression fails" else
       -- (3) every watched expression whose value changed got a callback with the new value
       let idx := List.range after.length
       match idx.find? (fun k =>
@@ -178,7 +193,7 @@ def meets (S : Sem Val Err Op) : Expect Val Err Op → Outcome Val Err → Optio
           | _, _ => false) with
       | some k => some s!"watch callback {k} was not called although the value of its expression changed"
       | none => none
-  | .set _ _, _ => some "unexpected outcome of an input update"
+  | .set _ _ _, _ => some "unexpected outcome of an input update"
   | .invalid, _ => none
 
 /-- The oracle: walk a program and the observed outcomes.  Returns the number of
